@@ -46,7 +46,7 @@ var c26Assumptions = []string{
 	"UPDATE never assigns a column with a case/accent-insensitive collation (the memory engine keeps the old bytes when the new value is collation-equal, e.g. 'ä' -> 'A' under utf8mb4_general_ci; skipped assignments are counted as excluded_known)",
 	"a secondary index the memory engine fails to build is dropped from dolt as well (counted as excluded_known, class reference_rejected_index)",
 	"a query on which the reference engine's connection dies (the memory engine panicked) is skipped and counted as excluded_known (class reference_engine_crashed); when dolt's connection dies on the same query as well (a panic in go-mysql-server's shared analyzer, seen for `varbinarycol = x AND varbinarycol IN (...)`) both are reopened (class both_engines_crashed)",
-	"while finding " + c26FindPrefixOverlap + " is listed open, a disagreement (no LIMIT) where dolt returns exactly the reference rows but some of them several times, for a query over a table with a prefix index and an index scan in dolt's plan, is attributed to it (counted as excluded_known); the pinned sub-test reports it",
+	"while finding " + c26FindPrefixOverlap + " is listed open, a disagreement (no LIMIT) where dolt returns every reference row plus extra rows (copies, or — for a multi-range scan — rows the trimmed ranges let through), for a query over a table with a prefix index and an index scan in dolt's plan, is attributed to it (counted as excluded_known); the pinned sub-test reports it",
 	"while finding " + c26FindLeftMerge + " is listed open, a disagreement whose dolt plan contains a LeftOuterMergeJoin and where dolt returns no more rows than the reference is attributed to it (counted as excluded_known); the pinned sub-test reports it",
 	"while finding " + c26FindPrefixMB + " is listed open, a COUNT query over a table with a prefix index whose dolt plan uses an index and whose dolt count is smaller than the reference count is attributed to it; row-returning queries that lose rows the same way fall under the subset gate of " + c26FindPrefixLower + " (both counted as excluded_known); the pinned sub-test reports it",
 	"while finding " + c26FindCIRanges + " is listed open, a disagreement (no LIMIT) on a query with an IN list whose dolt plan is a multi-range index scan and where dolt returns the reference rows with extra copies (or a larger COUNT) is attributed to it (counted as excluded_known); the pinned sub-test reports it",
@@ -58,6 +58,7 @@ var c26Assumptions = []string{
 	"grammar exclusion (go-mysql-server bug shared by both engines): a disagreement on a join with a _ci/_ai_ci collated key column whose dolt plan contains a HashLookup is not compared (the hash join is wrong in both engines and each returns a different wrong subset; counted as excluded_known, documented by the pinned sub-test pinned_hashjoin_accent_insensitive_key)",
 	"grammar exclusion (go-mysql-server bug shared by both engines): no negated equality (<>, NOT IN, NOT BETWEEN, NOT(...)) on DECIMAL columns: the shared range builder turns it into the range (NULL, ∞) and the memory engine drops the filter (returns the rows equal to the literal); avoided draws are counted as excluded_known",
 	"grammar exclusion (go-mysql-server bug shared by both engines): no `<=>` on columns with a case/accent-insensitive collation (as a filter it compares bytes, as an index range it compares by collation: `c <=> 'á'` matches 'a' only through an index); replaced operators are counted as excluded_known",
+	"grammar exclusion (go-mysql-server bug shared by both engines): integer columns are not compared with fractional literals (`intcol > 11.75` becomes the range (12, ∞) under a merge-join plan and loses 12 in both engines); avoided draws are counted as excluded_known",
 	"while finding " + c26FindKeylessCount + " is listed open, `SELECT COUNT(col) FROM <keyless table>` is not generated (counted as excluded_known); the pinned sub-test reports it",
 }
 
@@ -905,7 +906,10 @@ func (c *qCase) runQuery(q qQuery) {
 	if mismatch && q.has("prefix_index_table") && !q.Limit && vh.OpenFinding("C26", c26FindPrefixOverlap) {
 		dp, _ := plan()
 		// dolt returns every reference row, some of them more than once
-		if strings.Contains(strings.Join(dp, "\n"), "IndexedTableAccess") && qOnly(mr, dr) == "" && qSameSet(dr, mr) {
+		pt := strings.Join(dp, "\n")
+		if strings.Contains(pt, "IndexedTableAccess") && qOnly(mr, dr) == "" && (qSameSet(dr, mr) || strings.Contains(pt, "}, {")) {
+			// every reference row is there; the extra rows are copies delivered by overlapping trimmed
+			// ranges, or rows the trimmed ranges let through to a filter
 			c.rec.Excluded(1)
 			c.rec.Class("known:"+c26FindPrefixOverlap, 1)
 			return
@@ -1297,7 +1301,7 @@ func TestVerif_C26(t *testing.T) {
 			}
 		}
 		defer func() {
-			for _, k := range []string{"decimal_type_extreme_literal", "prefix_index_on_pk_column", "two_string_group_columns", "decimal_negated_equality", "nullsafe_equal_on_ci_column"} {
+			for _, k := range []string{"decimal_type_extreme_literal", "prefix_index_on_pk_column", "two_string_group_columns", "decimal_negated_equality", "nullsafe_equal_on_ci_column", "fractional_literal_on_int_column"} {
 				if n := qExcludedLits[k]; n > 0 {
 					rec.Excluded(n)
 					rec.Class("excluded:"+k, n)
